@@ -221,3 +221,19 @@ rule(T, 'next', "Some('@')", ['post', 'assert'], ['C14'])
 rule(P, '*', '*', VAL, ['C03', 'C15'])
 # ---- C15, first clause as a theorem over the two specifications (unit i64number-agree)
 rule('i64number-agree', '*', '*', ['post', 'assert', 'precond', 'decreases', 'invariant'], ['C15'])
+
+# superscript exponents: the ten superscript digits, the maximal run, the digits handed to the conversion (C13: 2¹⁰ = 2^10)
+for c in '⁰¹²³⁴⁵⁶⁷⁸⁹':
+    rule(T, 'next', "Some('%s')" % c, ['post', 'assert'], ['C13', 'C03'])
+rule(T, 'superscript_digit_to_digit', '*', ['post', 'assert'], ['C13'])
+rule(T, 'deserialize_superscript_number', '*', ['post', 'invariant', 'assert'], ['C13'])
+
+# size / cost clauses of the parser methods: the parsed tree has fewer than 2 * tokens nodes, cost(tree) = nodes (C02)
+rule(P, '*', '*', ['cost'], ['C02'])
+
+# the literal arms also belong to the evaluator's own value property: a literal outside the range is rejected, never wrapped (C06),
+# the text of a decimal / float literal reaches the conversion unchanged (C07, C05)
+for arm in ("Some('0'..='9')", "Some('.')"):
+    rule('i64-tok', 'next', arm, ['post', 'invariant', 'assert'], ['C06'])
+    rule('decimal-tok', 'next', arm, ['post', 'invariant', 'assert'], ['C07'])
+    rule('f64-tok', 'next', arm, ['post', 'invariant', 'assert'], ['C05'])
